@@ -8,6 +8,9 @@ Values are tagged tuples: ("z",) ("b", bool) ("n", Fraction) ("s", str) ("l", (.
 """
 from fractions import Fraction
 import re
+import sys
+
+sys.setrecursionlimit(20000)  # long operator chains and deep nestings are parsed / rendered recursively
 
 WS = " \t\r\n"
 OPCHARS = "+-*/^%&!=?:><|"
